@@ -91,6 +91,35 @@ theorem physical_eq_voxel_box (im : Img) (pts : List (List Rat)) :
   unfold Img.subCoords Img.subVoxels
   cases im.cs.voxelB pts <;> rfl
 
+/-- a physical box whose corner points are the coordinates of arbitrary (fractional, possibly outside)
+voxel positions `ws` selects exactly what the VoxelArray of the FLOORED positions selects — on reversed
+and non-reversed axes alike, in every dimension (every physical point is the coordinate of some voxel
+position, `voxel ∘ coordinate = floor`). -/
+theorem physical_box_clipped (im : Img) (hcs : im.cs.ok) (ws : List (List Rat))
+    (hw : ∀ w ∈ ws, w.length = im.cs.dim.toNat) :
+    ∃ pts, im.cs.coordinateB ws = .ok pts ∧ im.subCoords pts = im.subVoxels (ws.map (·.map Rat.floor)) :=
+  physical_box_floor im hcs ws hw
+
+/-- CLIPPING of point ROIs (VoxelArray, and through the previous theorem CoordinateArray): on an axis of
+`N` voxels on which the points' indices span `[lo, hi]` the code selects the normalised range
+`boxRange N lo hi`; voxel `j` is selected iff `lo ≤ j < hi` and `j` is a voxel of the image; a ROI lying
+entirely outside the image on that axis (`hi ≤ 0` or `lo ≥ N`) selects nothing (before the fix a ROI
+entirely on the negative side selected `[0, N + hi)`: a negative slice stop counts from the end). -/
+theorem roi_clipping (shape : List Nat) (pts : List (List Int)) (sls : List PySlice)
+    (h : boxSlices shape pts = .ok sls) :
+    sls.length = shape.length ∧ ∀ (d N : Nat), shape[d]? = some N → ∃ lo hi, colMin pts d = some lo ∧ colMax pts d = some hi ∧
+      (List.zipWith sliceIdx shape sls)[d]? = some (boxRange N lo hi) ∧
+      (∀ j : Nat, ((boxRange N lo hi).1 ≤ j ∧ j < (boxRange N lo hi).2) ↔ (lo ≤ (j : Int) ∧ (j : Int) < hi ∧ j < N)) ∧
+      ((hi ≤ 0 ∨ (N : Int) ≤ lo) → (boxRange N lo hi).2 ≤ (boxRange N lo hi).1 ∨ (boxRange N lo hi).2 = 0) := by
+  obtain ⟨hl, hg⟩ := boxSlices_ranges shape pts sls h
+  refine ⟨hl, ?_⟩
+  intro d N hd
+  obtain ⟨lo, hi, a, b, c⟩ := hg d N hd
+  exact ⟨lo, hi, a, b, c, fun j => clip_selects N lo hi j, roi_outside_selects_nothing N lo hi⟩
+
+/-! non-vacuity: ROI spanning voxels −2..3 on an axis of 5 is clipped to [0, 3); entirely outside (−3..−1) selects nothing. -/
+example : boxRange 5 (-2) 3 = (0, 3) ∧ boxRange 4 (-3) (-1) = (0, 0) ∧ boxRange 4 6 9 = (4, 4) := by decide
+
 /-- stacking single-time images that carry relative times only and slicing again returns each
 original: its data, its relative time, no date (this failed before the fix of `Image.append`). -/
 theorem stack_slice_rel (cs : CS) (scalar : Bool) (xs : List (Slab × Rat)) (hn : 2 ≤ xs.length) (i : Nat)
